@@ -1,6 +1,7 @@
 package scen
 
 import (
+	"bytes"
 	"fmt"
 	"strings"
 	"unicode/utf8"
@@ -230,6 +231,13 @@ func c11DeliverEvents(e *Env, pos int, mid []rec.Ev, cfg *configuration.Configur
 			rec.Ev{K: rec.KArrayChunk, U: 9, B: false}, rec.Ev{K: rec.KArrayData, S: []byte("other")}, rec.Ev{K: rec.KArrayData, S: []byte("-key")},
 			rec.Ev{K: rec.KTrue},
 			rec.Ev{K: rec.KMarker, S: []byte("mb")})
+	case 7:
+		// after ANOTHER array that ended with an empty final chunk, under an
+		// array size limit that fits each array but not both: what the first
+		// array's delivery leaves behind must not count against the second
+		evs = append(evs, rec.Ev{K: rec.KList}, rec.Ev{K: rec.KArrayBegin, AT: events.ArrayTypeUint8},
+			rec.Ev{K: rec.KArrayChunk, U: c11FirstArrayLen, B: true}, rec.Ev{K: rec.KArrayData, S: bytes.Repeat([]byte{0x55}, c11FirstArrayLen)},
+			rec.Ev{K: rec.KArrayChunk, U: 0, B: false})
 	case 5:
 		// a marked key whose marker is USED: its own value refers to it. The
 		// marker must exist whatever form the key was delivered in.
@@ -244,7 +252,7 @@ func c11DeliverEvents(e *Env, pos int, mid []rec.Ev, cfg *configuration.Configur
 	}
 	evs = append(evs, mid...)
 	switch pos {
-	case 1:
+	case 1, 7:
 		evs = append(evs, rec.Ev{K: rec.KEndContainer})
 	case 2:
 		evs = append(evs, rec.Ev{K: rec.KEndContainer})
@@ -269,17 +277,28 @@ func c11DeliverEvents(e *Env, pos int, mid []rec.Ev, cfg *configuration.Configur
 }
 
 var c11Positions = []string{"top-level", "list element", "map value", "map key", "marked map key after another marked chunked key",
-	"marked map key whose value refers to the marker", "marked map key after a key marked with the same identifier"}
+	"marked map key whose value refers to the marker", "marked map key after a key marked with the same identifier",
+	"list element after another array that ended with an empty final chunk, array size limit fits each but not both"}
+
+const c11FirstArrayLen = 40
 
 func runC11(e *Env) Outcome {
 	t := e.T
 	cfg := configurationDefault
 	a := drawC11Array(t)
-	pos := t.Intn("position", 7)
-	if pos >= 3 && !(a.Kind == rec.KArrayBegin && (a.AT == events.ArrayTypeString || a.AT == events.ArrayTypeResourceID)) {
+	pos := t.Intn("position", 8)
+	if pos >= 3 && pos <= 6 && !(a.Kind == rec.KArrayBegin && (a.AT == events.ArrayTypeString || a.AT == events.ArrayTypeResourceID)) {
 		pos = 1
 	}
-	if pos >= 4 && (string(a.Payload) == "other-key" || string(a.Payload) == "plain" || len(a.Payload) == 0) {
+	if pos == 7 {
+		// a limit that fits each of the two arrays, but not their sum
+		limit := uint64(len(a.Payload))
+		if limit < c11FirstArrayLen {
+			limit = c11FirstArrayLen
+		}
+		cfg = CfgDesc{EnforceRules: true, MaxArray: limit + 8}.Build()
+	}
+	if pos >= 4 && pos <= 6 && (string(a.Payload) == "other-key" || string(a.Payload) == "plain" || len(a.Payload) == 0) {
 		pos = 3 // would be a duplicate (or empty) key for reasons of its own
 	}
 	sc := &c11Scenario{Array: describeArray(a), Payload: fmt.Sprintf("%x", a.Payload), Position: c11Positions[pos]}
@@ -343,6 +362,9 @@ func runC11(e *Env) Outcome {
 				if ev.K == rec.KArrayData {
 					payload = append(payload, ev.S...)
 				}
+			}
+			if pos == 7 && len(payload) >= c11FirstArrayLen {
+				payload = payload[c11FirstArrayLen:] // the first array's data
 			}
 			if pos == 4 {
 				// the other marked key's own data events come first (in position
